@@ -506,6 +506,41 @@ func (e *SpecEnv) evalCall(x *ast.CallExpr) Val {
 	case "govcRvvalid":
 		v := e.eval(x.Args[0])
 		return Val{T: types.Typ[types.Bool], L: []string{not(eq(v.L[iMt], bvLit(64, rvInvalid)))}}
+	case "govcRvtime":
+		// the time.Time held by the cell that v addresses (abstract reflect store)
+		v := e.eval(x.Args[0])
+		t := e.typeOf(x)
+		var ls []string
+		for _, n := range []string{"rvTsec", "rvTns", "rvTzoff", "rvTzid"} {
+			ls = append(ls, vc.rvLoad(e.st, n, sBV64, v.L[iObj], cellKey(v)))
+		}
+		return Val{T: t, L: ls}
+	case "govcRvtimeat":
+		// the time.Time held by cell c of the object that v views
+		v := e.eval(x.Args[0])
+		c := e.eval(x.Args[1])
+		t := e.typeOf(x)
+		var ls []string
+		for _, n := range []string{"rvTsec", "rvTns", "rvTzoff", "rvTzid"} {
+			ls = append(ls, vc.rvLoad(e.st, n, sBV64, v.L[iObj], c.L[0]))
+		}
+		return Val{T: t, L: ls}
+	case "govcRvcell":
+		v := e.eval(x.Args[0])
+		return Val{T: types.Typ[types.Int], L: []string{cellKey(v)}}
+	case "govcRvint":
+		v := e.eval(x.Args[0])
+		return Val{T: types.Typ[types.Int], L: []string{vc.rvLoad(e.st, "rvInt", sBV64, v.L[iObj], cellKey(v))}}
+	case "govcRvflt":
+		v := e.eval(x.Args[0])
+		return Val{T: types.Typ[types.Float64], L: []string{vc.rvLoad(e.st, "rvFlt", sF64, v.L[iObj], cellKey(v))}}
+	case "govcRvfieldof":
+		// the Value of field i of the message struct that v views (as reflect.Value.Field)
+		v := e.eval(x.Args[0])
+		i := e.eval(x.Args[1])
+		vc.declareRVFuncs()
+		m, f := v.L[iMt], i.L[0]
+		return Val{T: v.T, L: []string{v.L[iObj], m, f, allOnes64, app("RVClass", m, f), app("RVWidth", m, f), app("RVEClass", m, f), app("RVEWidth", m, f), app("RVTypeTag", m, f)}}
 	case "govcRvismsg":
 		// v views a whole, settable message struct of message number m
 		v := e.eval(x.Args[0])
